@@ -13,7 +13,7 @@ from typing import Generic, TypeVar, cast
 
 import numpy
 import xarray
-from shapely.geometry import Polygon, box
+from shapely.geometry import MultiPolygon, Polygon, box
 from shapely.geometry.base import BaseGeometry
 
 from emsarray import masking, utils
@@ -317,6 +317,18 @@ class CFGrid(Generic[Topology], DimensionConvention[CFGridKind, CFGridIndex]):
 
 # 1D coordinate grids
 
+def _bounds_are_contiguous(bounds: numpy.ndarray) -> bool:
+    """
+    Check whether the cells described by an array of (n, 2) coordinate bounds
+    cover their whole extent without leaving gaps between them.
+    """
+    lows = numpy.min(bounds, axis=1)
+    highs = numpy.max(bounds, axis=1)
+    order = numpy.argsort(lows)
+    lows, highs = lows[order], highs[order]
+    return bool(numpy.all(lows[1:] <= numpy.maximum.accumulate(highs)[:-1]))
+
+
 class CFGrid1DTopology(CFGridTopology):
     """
     Collects information about the topology of a gridded dataset
@@ -455,10 +467,17 @@ class CFGrid1D(CFGrid[CFGrid1DTopology]):
         return cast(numpy.ndarray, centres)
 
     @cached_property
-    def geometry(self) -> Polygon:
+    def geometry(self) -> Polygon | MultiPolygon:
         # As CFGrid1D is axis aligned,
-        # the geometry can be constructed from the bounds.
-        return box(*self.bounds)
+        # the geometry can be constructed from the bounds,
+        # as long as the cell bounds leave no gaps between the cells.
+        topology = self.topology
+        if (
+            _bounds_are_contiguous(topology.longitude_bounds.values)
+            and _bounds_are_contiguous(topology.latitude_bounds.values)
+        ):
+            return box(*self.bounds)
+        return cast(Polygon | MultiPolygon, super().geometry)
 
 
 # 2D coordinate grids
